@@ -131,14 +131,14 @@ Section RoundTrip.
   Theorem restored_behaves_alike r cx ev d tgt p :
     restore m (persist m s) = Some r ->
     select m (s_cfg r) cx ev = select m (s_cfg s) cx ev
-    /\ sort_by (lt_depth_id m) (exit_set m (s_cfg r) d tgt) = sort_by (lt_depth_id m) (exit_set m (s_cfg s) d tgt)
+    /\ sort_by (lt_depth_id m) (exit_set_h m (s_cfg r) (s_hist r) d tgt) = sort_by (lt_depth_id m) (exit_set_h m (s_cfg s) (s_hist s) d tgt)
     /\ remembered m (s_cfg r) p = remembered m (s_cfg s) p
     /\ sort_nat (s_cfg r) = sort_nat (s_cfg s).
   Proof.
-    intros H. destruct (restore_persist_fields r H) as [Hp _]. symmetry in Hp.
+    intros H. destruct (restore_persist_fields r H) as [Hp [Hh _]]. symmetry in Hp.
     repeat split; symmetry.
     - now apply select_independent.
-    - now apply exit_order_independent.
+    - rewrite Hh. now apply exit_order_independent_h.
     - now apply remembered_independent.
     - now apply reported_independent.
   Qed.
